@@ -197,6 +197,12 @@ def build_driver(src, flavour="ndebug", extra_flags=(), extra_deps=(), cxx=None)
     srcp = src if os.path.isabs(src) else os.path.join(VERIF, "drivers", src)
     flags = FLAVOURS[flavour] + list(extra_flags)
     deps = [srcp, os.path.join(VERIF, "drivers", "common.hpp"), os.path.join(VERIF, "drivers", "show.hpp")] + [os.path.join(VERIF, "drivers", d) if not os.path.isabs(d) else d for d in extra_deps]
+    # headers of /verif/drivers that the source includes (beyond common.hpp / show.hpp) are part of the cache key
+    try:
+        for inc in re.findall(r'^\s*#\s*include\s+"([^"]+)"', open(srcp).read(), re.M):
+            ip = os.path.join(VERIF, "drivers", inc)
+            if os.path.exists(ip) and ip not in deps: deps.append(ip)
+    except OSError: pass
     key = hashlib.sha256((sha_files(deps) + " ".join(flags) + cxx + repo_tree_hash()).encode()).hexdigest()[:20]
     bindir = os.path.join(BUILD, "bin"); os.makedirs(bindir, exist_ok=True)
     ftag = hashlib.sha256(" ".join(extra_flags).encode()).hexdigest()[:6] if extra_flags else "0"
